@@ -449,13 +449,9 @@ def _bad_after(n, follow, nxt):
             if n.name == 'section' and len(n.args) == 1:
                 return follow.startswith('[')
             return False
-    if k == 'env':
-        # the reader looks ahead at `\\end{name}` together with all groups that follow it (for a
-        # math environment: in math mode, where \\item is refused), and an opening bracket right
-        # after them must find its partner: both are kept away
-        if MATH_END_LIST_GUARD and n.sub == 'math' and OPENER.match(follow) and \
-                any(y.kind == 'item' for x in nxt for y in walk(x)):
-            return True
+    if k == 'env' and LIST_END_BRACKET_GUARD and n.sub == 'list' and any(c.kind == 'item' for c in n.children):
+        # read_item looks ahead at the closing `\\end{list}` together with every group after it: an
+        # opening bracket right after them would have to find its partner, so it is kept away
         j = 0
         while j < len(nxt):
             x = nxt[j]
@@ -484,7 +480,7 @@ def _head_bad(n, body):
     return False
 
 
-MATH_END_LIST_GUARD = True      # see _bad_after (environment rule)
+LIST_END_BRACKET_GUARD = True       # see _bad_after
 
 
 class FrameError(Exception):
@@ -632,6 +628,9 @@ MATH_ATOMS = ('x', 'y', 'a', 'b', 'n', 'i', '0', '1', '2', '+', '-', '=', '<', '
               '/', '\\,', '\\;', '\\|', '&', '\n', '\\\\', '\\{', '\\}', "'")
 
 
+LEAF_KINDS = ('text', 'comment', 'zero', 'bracket', 'sizing', 'paren', 'script', 'edollar', 'cmd0')
+
+
 class Gen:
     def __init__(self, rng, layout='adjacent', weights=None, twins=0.0, hostile=0.0, width=5,
                  user_verb=0.5, unicode_ok=True):
@@ -648,6 +647,7 @@ class Gen:
         self.pool = []          # (node, features) candidates for textual twins
         self.skip = []          # user-chosen verbatim names
         self.ntwins = 0
+        self.budget = 250       # structured nodes left
 
     # -- helpers
     def pick(self, table):
@@ -873,9 +873,21 @@ class Gen:
 
     # -- sequences
     def seq(self, cx, depth, n, force=None):
+        """n elements.  Below depth 3 every element may use the whole remaining depth; above, one
+        element (the spine) does and the others stay shallow, so that deep documents stay small."""
+        r = self.rng
         out = []
+        spine = r.randrange(n) if n else 0
         for i in range(n):
-            out.append(self.elem(cx, depth, force if (force and i == 0) else None))
+            d = depth
+            if depth > 3 and i != spine:
+                d = r.choice((0, 1, 1, 2, 2, 3))
+            if self.budget <= 0:
+                d = min(d, 0)
+            f = force if (force and i == 0) else None
+            if f is None and depth > 3 and i == spine and r.random() < 0.8:
+                f = 'structured'
+            out.append(self.elem(cx, d, f))
         return out
 
     def elem(self, cx, depth, force=None):
@@ -906,6 +918,8 @@ class Gen:
                 table += [(w['cmd'], 'beginend')]
         else:
             table += [(w['cmd'] // 2, 'cmd0')]
+        if force == 'structured' and depth > 0:
+            table = [e for e in table if e[1] not in LEAF_KINDS] or table
         k = self.pick(table)
         if k == 'text':
             return self.text_node(cx)
@@ -927,6 +941,7 @@ class Gen:
             return text('\\$')
         if k == 'cmd0':
             return Node('cmd', 'generic', self.name())
+        self.budget -= 1
         node = getattr(self, {'group': 'free_group', 'mcmd': 'mcmd', 'cmd': 'cmd', 'fixed': 'fixed', 'math': 'math',
                               'special': 'special', 'env': 'env', 'list': 'list_env', 'menv': 'menv', 'verb': 'verb',
                               'beginend': 'beginend'}[k])(cx, depth)
